@@ -5,5 +5,6 @@ CONSTANTS
   SegAlphabet = {}
   DevIndexNotRechecked = FALSE
   DevNoPctDecode = FALSE
+  DevLoopLexical = FALSE
 CONSTRAINT Report
 CHECK_DEADLOCK FALSE
